@@ -335,7 +335,17 @@ pub fn restyle(body: &[u8], style: u8) -> Vec<u8> {
         let (kind, b) = op.as_object().unwrap().iter().next().unwrap();
         let uuid = json_str(b["uuid"].as_str().unwrap(), false);
         if kind == "Update" {
-            let prop = json_str(b["property"].as_str().unwrap(), esc);
+            // a property name may be written with escapes too - JSON lets any character be
+            // written as \uXXXX, and encoders that escape non-ASCII (or "/") are common: the
+            // first character of the name is escaped in the even styles
+            let pname = b["property"].as_str().unwrap();
+            let prop = match (esc, pname.chars().next()) {
+                (true, Some(c0)) if (c0 as u32) < 0x10000 => {
+                    let rest = json_str(&pname[c0.len_utf8()..], esc);
+                    format!("\"\\u{:04x}{}", c0 as u32, &rest[1..])
+                }
+                _ => json_str(pname, esc),
+            };
             let val = match &b["value"] {
                 Value::String(s) => json_str(s, esc),
                 _ => "null".to_string(),
